@@ -30,11 +30,13 @@ pub struct ProjOpts {
     pub main_component: bool,
     /// every generated definition lifts and analyses (no deliberate errors)
     pub clean: bool,
+    /// chance (of 256) that a file starts with a UTF-8 byte order mark
+    pub bom_chance: u32,
 }
 
 impl Default for ProjOpts {
     fn default() -> Self {
-        ProjOpts { max_files: 3, max_defs: 4, comments: true, main_component: true, clean: false }
+        ProjOpts { max_files: 3, max_defs: 4, comments: true, main_component: true, clean: false, bom_chance: 0 }
     }
 }
 
@@ -68,6 +70,41 @@ pub fn template_sig(d: &Def) -> Option<TemplateSig> {
         }
     }
     Some(TemplateSig { name: d.name.clone(), params: d.params.len(), inputs, outputs })
+}
+
+/// Prepend `{ var <p> = 0; }` (shadowing warning) and `var zu; var zw = zu + 1;` (SSA error).
+fn make_failing(d: &mut Def, ids: &mut Ids) {
+    let Stmt::Block { stmts, .. } = &mut d.body else { return };
+    let shadowed = d.params.first().cloned().unwrap_or_else(|| "zu".to_string());
+    let mut pre = Vec::new();
+    let zu = Stmt::Decl {
+        id: ids.next(),
+        kind: DeclKind::Var,
+        syms: vec![DeclSym { id: ids.next(), sub_id: ids.next(), name: "zu".into(), dims: vec![], init: None }],
+        init_op: AssignOp::Var,
+    };
+    pre.push(zu);
+    let inner = Stmt::Decl {
+        id: ids.next(),
+        kind: DeclKind::Var,
+        syms: vec![DeclSym { id: ids.next(), sub_id: ids.next(), name: shadowed, dims: vec![], init: Some(num(ids, 0)) }],
+        init_op: AssignOp::Var,
+    };
+    pre.push(Stmt::Block { id: ids.next(), stmts: vec![inner] });
+    let read = var(ids, "zu");
+    let one = num(ids, 1);
+    let rhs = infix(ids, crate::field::Op::Add, read, one);
+    pre.push(Stmt::Decl {
+        id: ids.next(),
+        kind: DeclKind::Var,
+        syms: vec![DeclSym { id: ids.next(), sub_id: ids.next(), name: "zw".into(), dims: vec![], init: Some(rhs) }],
+        init_op: AssignOp::Var,
+    });
+    // signal declarations stay first (templates)
+    let split = stmts.iter().position(|s| !matches!(s, Stmt::Decl { kind: DeclKind::Signal(..), .. })).unwrap_or(stmts.len());
+    let tail = stmts.split_off(split);
+    stmts.extend(pre);
+    stmts.extend(tail);
 }
 
 pub fn template_profile(t: &mut Tape) -> Profile {
@@ -116,7 +153,12 @@ pub fn gen_project(t: &mut Tape, o: ProjOpts) -> GenProject {
             p.helpers = helpers.clone();
             p.templates = templates.clone();
             let name = if template { format!("T{i}x{k}") } else { format!("f{i}x{k}") };
-            let d = gen_def(t, &p, &mut ids, &name);
+            let mut d = gen_def(t, &p, &mut ids, &name);
+            if !o.clean && t.chance(40) {
+                // a definition that fails during SSA conversion (read of a declared but never
+                // assigned variable) and also has a CFG-stage warning (shadowed parameter or local)
+                make_failing(&mut d, &mut ids);
+            }
             if template {
                 if let Some(sig) = template_sig(&d) {
                     templates.push(sig);
@@ -146,6 +188,11 @@ pub fn gen_project(t: &mut Tape, o: ProjOpts) -> GenProject {
         } else {
             super::print::plain_trivia(&printed)
         };
+        let mut trivia = trivia;
+        if o.bom_chance > 0 && t.chance(o.bom_chance) {
+            // part of the leading trivia, so all recorded spans are offsets into the real file
+            trivia[0] = format!("{}{}", '\u{FEFF}', trivia[0]);
+        }
         let r = render(&printed, &trivia);
         files.push(GenFile { rel, ast, printed, r, always_paren });
     }
